@@ -150,24 +150,35 @@ func (bl *blockLabels) Current() []string {
 
 		case *quoted:
 			tokens := labelObj.tokens
-			if len(tokens) == 3 &&
+			if len(tokens) >= 2 &&
 				tokens[0].Type == hclsyntax.TokenOQuote &&
-				tokens[1].Type == hclsyntax.TokenQuotedLit &&
-				tokens[2].Type == hclsyntax.TokenCQuote {
+				tokens[len(tokens)-1].Type == hclsyntax.TokenCQuote {
+				// The scanner can split the literal part of a quoted label
+				// into several TokenQuotedLit tokens (it does so at "$" and
+				// "%"), and an open quote followed immediately by a closing
+				// quote is a valid but unusual blank string label, so we
+				// concatenate however many literal tokens there are.
 				// Note that TokenQuotedLit may contain escape sequences.
-				labelString, diags := hclsyntax.ParseStringLiteralToken(tokens[1].asHCLSyntax())
+				labelString := ""
+				valid := true
+				for _, tok := range tokens[1 : len(tokens)-1] {
+					if tok.Type != hclsyntax.TokenQuotedLit {
+						valid = false
+						break
+					}
+					part, diags := hclsyntax.ParseStringLiteralToken(tok.asHCLSyntax())
 
-				// If parsing the string literal returns error diagnostics
-				// then we can just assume the label doesn't match, because it's invalid in some way.
-				if !diags.HasErrors() {
+					// If parsing the string literal returns error diagnostics
+					// then we can just assume the label doesn't match, because it's invalid in some way.
+					if diags.HasErrors() {
+						valid = false
+						break
+					}
+					labelString += part
+				}
+				if valid {
 					labelNames = append(labelNames, labelString)
 				}
-			} else if len(tokens) == 2 &&
-				tokens[0].Type == hclsyntax.TokenOQuote &&
-				tokens[1].Type == hclsyntax.TokenCQuote {
-				// An open quote followed immediately by a closing quote is a
-				// valid but unusual blank string label.
-				labelNames = append(labelNames, "")
 			}
 
 		default:
